@@ -6,5 +6,5 @@ cd /repo || exit 2
 git diff --quiet || { echo "/repo has uncommitted changes"; exit 2; }
 git apply "$P" || { echo "patch does not apply"; exit 2; }
 trap 'git -C /repo checkout -- . ; git -C /repo clean -fdq' EXIT
-cd /verif && ./run "$C" "$T"
+cd /verif && VERIF_EVIDENCE_DIR=/verif/.build/scratch-evidence ./run "$C" "$T"
 echo "exit=$?"
